@@ -522,7 +522,10 @@ pub trait GuestMemory {
                         _ => return Err(Error::CallbackOutOfRange),
                     };
                     cur = match cur.overflowing_add(len as GuestUsize) {
-                        (x @ GuestAddress(0), _) | (x, false) => x,
+                        (x, false) => x,
+                        // The chunk ended exactly at the top of the address space: no address
+                        // follows it, so report what was handled instead of continuing at 0.
+                        (GuestAddress(0), true) => return Ok(total),
                         (_, true) => return Err(Error::GuestAddressOverflow),
                     };
                 }
